@@ -176,6 +176,10 @@ def _length_for_cells(r, E, s, uniform):
         h = E[1] - E[0]
         return float(s * h + _delta(r, h))
     w = E[s] - E[s - 1]
+    if r.uniform() < 0.5:
+        # anywhere inside cell s: the non-uniform rule (cover the length, except for an exact edge hit within 1e-6 of the
+        # smallest cell) has no knife edge inside a cell, so ends just above an edge are legitimate inputs too
+        return float(E[s - 1] + r.uniform(0.03, 0.97) * w - E[0])
     return float(0.5 * (E[s - 1] + E[s]) - E[0] + _delta(r, w))
 
 
@@ -1155,8 +1159,24 @@ def k26_extension_target_late(spec, v) -> bool:
     return (c["object"], c["axis"]) in _late_extension_axes(spec)
 
 
+def _late_one_sided_extension_axes(spec):
+    """(object, axis) with a late extend_to(other) on ONE side whose opposite side carries neither a coordinate nor an extension,
+    i.e. is left to the extend-to-infinity fallback.  This is the only shape in which the unchanged tree was ever seen to be
+    order dependent in this class (1 system in 13 500: the fallback pins the free side before the late extension is applied in
+    some orders).  An object whose two sides are both extension-/coordinate-constrained is NOT covered: there the fallback has
+    nothing to pin on that axis, so an order dependence would be a different defect."""
+    src = sources(spec)
+    out = set()
+    for (o, a) in _late_extension_axes(spec):
+        s = src[(o, a)]
+        for d, e in (("-", "+"), ("+", "-")):
+            if s["ext"][d] and not s["ext"][e] and not s["coord"][e]:
+                out.add((o, a))
+    return out
+
+
 def k27_extension_target_late(spec, v) -> bool:
-    return _match_c27(v, _late_extension_axes(spec))
+    return _match_c27(v, _late_one_sided_extension_axes(spec))
 
 
 def k26_contradiction(spec, v) -> bool:
